@@ -221,7 +221,15 @@ pub fn gen_callgraph(rng: &mut Rng) -> (Case, usize) {
                 }
             }
         }
-        let mut c = Case::new(Kind::NoData, prog, "callgraph");
+        // all four VM kinds (each wrapper forwards calculators, helpers and the stack on its own)
+        let kind = *rng.pick(&[Kind::NoData, Kind::NoData, Kind::Raw, Kind::Mbuff, Kind::Fixed]);
+        let mut c = Case::new(kind, prog, "callgraph");
+        if kind != Kind::NoData {
+            c.pkt = rng.bytes(16);
+        }
+        if kind == Kind::Mbuff {
+            c.mbuff = vec![0; 16];
+        }
         c.calc = calc;
         c.helpers = helpers;
         return (c, want_depth);
